@@ -269,13 +269,26 @@ def run(ctx):
     by_w = record_traces(ctx, ctx.tmp, 150 if quick else 1500)
     for w, events in sorted(by_w.items()):
         path = os.path.join(ctx.tmp, "stats-%d.ndjson" % w)
+        # the binding must bite: a CANARY record (a recorded sample set whose first reported mean is off by one shot) has to be rejected
+        import copy
+
+        can = copy.deepcopy(next(e for e in events if e["shots"]))
+        can["canary"] = True
+        nsh = len(can["shots"])
+        can["means"][0] = [can["means"][0][0] * nsh + 2 * can["means"][0][1], can["means"][0][1] * nsh]
+        events = list(events) + [can]
         with open(path, "w") as f:
             for e in events:
-                f.write(json.dumps(e) + "\n")
+                f.write(json.dumps({k_: v_ for k_, v_ in e.items() if k_ != "canary"}) + "\n")
         tr = ctx.tlc("StatsTrace", init="TInit", next_="TNext", constants=dict(W=w, MaxShots=99, Operators="<-OperatorsSmall", Emitting=False), workers=1, env={"TRACE_FILE": path}, coverage=False, timeout=1200)
         if tr.distinct < len(events):
             raise TLCError("StatsTrace consumed %d of %d lines" % (tr.distinct, len(events)))
         rej = [e for e in tr.emitted if "reject" in e]
+        if not any(events[rj["reject"] - 1].get("canary") for rj in rej):
+            raise TLCError("binding self-test failed: StatsTrace accepted the canary record (a mean that is off by 2/N)")
+        ctx.by_kind["canary records rejected by the trace specification"] = ctx.by_kind.get("canary records rejected by the trace specification", 0) + 1
+        rej = [rj for rj in rej if not events[rj["reject"] - 1].get("canary")]
+        events = events[:-1]
         for rj in rej:
             e = events[rj["reject"] - 1]
             ctx.violation("trace:" + ",".join(sorted(rj["failed"])), "StatsTrace rejects a recorded sample set: %s do not equal the sample statistics\n %s" % (sorted(rj["failed"]), json.dumps(e)[:800]), {"k": "trace", "event": e})
